@@ -1180,7 +1180,7 @@ fn run_inner(args: &Args, out: &mut Out) {
     }
     hist.add("phase.exhaustive_done");
     // (2) random token soups with arbitrary trivia
-    let n_text = args.n.unwrap_or(if args.thorough() { 300_000 } else { 12_000 });
+    let n_text = args.n.unwrap_or(if args.thorough() { 300_000 } else { 20_000 });
     for _ in 0..n_text {
         let len = rng.range(1, 10) as usize;
         let mut s = String::new();
